@@ -22,6 +22,10 @@ type Call struct {
 type Recorder struct {
 	mu    sync.Mutex
 	calls []Call
+	// OnCall, when set before the broker is used, runs at the end of every handler call (the
+	// broker is then in the middle of Publish/Remove, still holding its per-channel publish lock):
+	// the concurrent checks yield here so that other goroutines' calls overlap this one.
+	OnCall func()
 }
 
 func View(p *centrifuge.Publication) PubView {
@@ -33,6 +37,9 @@ func (r *Recorder) HandlePublication(ch string, pub *centrifuge.Publication, sp 
 	r.mu.Lock()
 	r.calls = append(r.calls, Call{Ch: ch, Pub: View(pub), SP: Pos{Offset: sp.Offset, Epoch: sp.Epoch}, TimeMs: now, Seq: len(r.calls)})
 	r.mu.Unlock()
+	if r.OnCall != nil {
+		r.OnCall()
+	}
 	return nil
 }
 func (r *Recorder) HandleJoin(string, *centrifuge.ClientInfo) error  { return nil }
